@@ -72,7 +72,7 @@ def half (side : Side) (ip : Vec K → Vec K → K) (sqrt : K → K) (A : CRS K)
   let vT := pspmv side P A p w.v w.T                              -- preconditioner::spmv(pside, P, A, *p, *v, *T);
   let v := vT.1
   let T := vT.2
-  let alpha := rho1 / ip w.rh v                                   -- alpha = rho1 / inner_product(*rh, *v);
+  let alpha := rho1 / ip v w.rh                                   -- alpha = rho1 / inner_product(*v, *rh);
   let x := match side with
     | .left  => axpby alpha p 1 st.x                              -- axpby(alpha, *p, one, x);
     | .right => axpby alpha T 1 st.x                              -- axpby(alpha, *T, one, x);
@@ -87,7 +87,7 @@ def full (side : Side) (ip : Vec K → Vec K → K) (sqrt : K → K) (A : CRS K)
   let tT := pspmv side P A h.s w.t h.T                            -- preconditioner::spmv(pside, P, A, *s, *t, *T);
   let t := tT.1
   let T' := tT.2
-  let omega := ip t h.s / ip t t                                  -- omega = inner_product(*t, *s) / inner_product(*t, *t);
+  let omega := ip h.s t / ip t t                                  -- omega = inner_product(*s, *t) / inner_product(*t, *t);
   if omega = 0 then                                               -- precondition(!is_zero(omega), ...)
     .error (.zeroOmega, { first := false, iter := st.iter, rho1 := h.rho1, alpha := h.alpha, omega := omega,
                           res := h.res, x := h.x, w := ⟨w.r, h.p, h.v, h.s, t, w.rh, T'⟩ })
